@@ -388,7 +388,54 @@ func (rw *rewriter) rewriteSimple(s ast.Stmt) {
 }
 
 // buildRewriteOverlay writes rewritten copies of the files of the given package directories to scratch.
-func buildRewriteOverlay(pkgs map[string]*packages.Package, repo string, clockDirs, schedDirs []string, scratch string, replace map[string]string, curPkg string) error {
+// ghostInstrument adds the ownership ghost hooks to package message/pool: a use hook at the start of every
+// method of *Message, and wrappers around (*Pool).AcquireMessage / ReleaseMessage.
+func ghostInstrument(fd *ast.FuncDecl) string {
+	if fd.Recv == nil || len(fd.Recv.List) != 1 {
+		return ""
+	}
+	star, ok := fd.Recv.List[0].Type.(*ast.StarExpr)
+	if !ok {
+		return ""
+	}
+	id, ok := star.X.(*ast.Ident)
+	if !ok {
+		return ""
+	}
+	switch id.Name {
+	case "Message":
+		if len(fd.Recv.List[0].Names) == 1 && fd.Recv.List[0].Names[0].Name != "_" {
+			r := fd.Recv.List[0].Names[0].Name
+			call := schedCall("ZZGhostUse", ast.NewIdent(r), schedCall("ZZInPool"))
+			call.Fun.(*ast.SelectorExpr).Sel = ast.NewIdent("ZZGhostUse")
+			fd.Body.List = append([]ast.Stmt{&ast.ExprStmt{X: call}}, fd.Body.List...)
+		}
+	case "Pool":
+		switch fd.Name.Name {
+		case "AcquireMessage":
+			fd.Name = ast.NewIdent("zzOrigAcquireMessage")
+			return "\nfunc (p *Pool) AcquireMessage(ctx context.Context) *Message {\n\tm := p.zzOrigAcquireMessage(ctx)\n\tzzclock.ZZGhostAcquired(m)\n\treturn m\n}\n"
+		case "ReleaseMessage":
+			fd.Name = ast.NewIdent("zzOrigReleaseMessage")
+			return "\nfunc (p *Pool) ReleaseMessage(req *Message) {\n\tzzclock.ZZGhostReleaseEnter(req)\n\tzzclock.ZZPoolEnter()\n\tp.zzOrigReleaseMessage(req)\n\tzzclock.ZZPoolLeave()\n\tzzclock.ZZGhostReleased(req)\n}\n"
+		}
+	}
+	return ""
+}
+
+func buildRewriteOverlay(pkgs map[string]*packages.Package, repo string, clockDirs, schedDirs []string, scratch string, replace map[string]string, curPkg string, ghost bool) error {
+	if ghost {
+		// the pool package must be rewritten even if it is in no other list
+		found := false
+		for _, d := range schedDirs {
+			if d == "message/pool" {
+				found = true
+			}
+		}
+		if !found {
+			clockDirs = append(append([]string(nil), clockDirs...), "message/pool")
+		}
+	}
 	dirs := map[string][2]bool{}
 	for _, d := range clockDirs {
 		v := dirs[d]
@@ -421,9 +468,34 @@ func buildRewriteOverlay(pkgs map[string]*packages.Package, repo string, clockDi
 				continue // harness files exist natively only in the package under test
 			}
 			rw := &rewriter{info: p.TypesInfo, clock: flags[0], sched: flags[1]}
+			ghostPkg := ghost && dir == "message/pool"
+			extra := ""
+			if dir == "message/pool" {
+				// sync.Pool may drop or migrate items at any time; the engine models it as a LIFO stack, so the
+				// native replay uses a deterministic LIFO pool as well
+				ast.Inspect(f, func(n ast.Node) bool {
+					fld, ok := n.(*ast.Field)
+					if !ok {
+						return true
+					}
+					if sel, ok := fld.Type.(*ast.SelectorExpr); ok {
+						if id, ok := sel.X.(*ast.Ident); ok && id.Name == "sync" && sel.Sel.Name == "Pool" {
+							fld.Type = &ast.SelectorExpr{X: ast.NewIdent("zzclock"), Sel: ast.NewIdent("ZZPool")}
+							rw.changed = true
+						}
+					}
+					return true
+				})
+			}
 			for _, d := range f.Decls {
 				if fd, ok := d.(*ast.FuncDecl); ok && fd.Body != nil {
 					rw.rewriteBlock(fd.Body)
+					if ghostPkg {
+						if e := ghostInstrument(fd); e != "" {
+							extra += e
+						}
+						rw.changed = true
+					}
 				}
 				if gd, ok := d.(*ast.GenDecl); ok && gd.Tok == token.VAR {
 					for _, sp := range gd.Specs {
@@ -460,6 +532,9 @@ func buildRewriteOverlay(pkgs map[string]*packages.Package, repo string, clockDi
 				hooksDone = true
 			}
 			for _, im := range f.Imports {
+				if im.Path.Value == "\"sync\"" && dir == "message/pool" {
+					src += "\nvar _ sync.Mutex\n"
+				}
 				if im.Path.Value == "\"time\"" {
 					nm := "time"
 					if im.Name != nil {
@@ -468,6 +543,7 @@ func buildRewriteOverlay(pkgs map[string]*packages.Package, repo string, clockDi
 					src += "\nvar _ " + nm + ".Duration\n"
 				}
 			}
+			src += extra
 			n++
 			out := filepath.Join(scratch, fmt.Sprintf("rw_%d_%s", n, filepath.Base(path)))
 			if err := os.WriteFile(out, []byte(src), 0o644); err != nil {
